@@ -1,7 +1,8 @@
 """C10 — random_reference picks existing, correctly scoped targets; unique never repeats.
 Model: coq/theories/RowHistory.v (+ RandRange.v for `unique`); theorems: coq/props/C10.v.
 Case kinds: script (kernel, one unique context), recipe (end to end, one call site; non-unique ones also against the
-interpreter model), mscript (kernel, several call sites), multi (recipes with several call sites, compared as traces)."""
+interpreter model), mscript (kernel, several call sites), multi (recipes with several call sites, compared as traces;
+stream "scope": parent rows that outlive an iteration, continuation chains)."""
 import io
 from collections import Counter
 
@@ -32,7 +33,13 @@ RULE = ("(i) kernel: the real RowHistory / RandomReferenceContext objects driven
         "operation per reference cell with its call site and parent row) that the model must reproduce cell by cell from "
         "the recorded random draws, including that the run fails exactly when a site of the next row has to be refused; "
         "oracle per call site: eligible row, never twice under one parent row, refused only after using every eligible "
-        "row.  non-trivial: >= 1 random reference was produced; distinct by case hash")
+        "row; (iv) lifetime of a scope: recipes whose `parent:` row outlives the iteration that made it (just_once row "
+        "found again by table name / nickname, shadowed by a repeating template of the same table, restored from a "
+        "continuation file) next to per-iteration parents, targets whose eligible rows overlap between iterations "
+        "(just_once, just_once + repeating, prior-and-current-iterations scope, rows added between the pickers) or not, "
+        "2-5 iterations also split into continuation runs: the oracle keeps a scope over iteration ends for as long as the "
+        "parent row is the same row of the same run, the model reproduces the first run cell by cell.  "
+        "non-trivial: >= 1 random reference was produced; distinct by case hash")
 TRUSTED = ["harness/oracle_random.py (random.Random._randbelow patched to inject draws)",
            "harness/c10.py drives snowfakery.row_history.RowHistory / RandomReferenceContext directly",
            "harness/c10.py derive_trace: the attribution of reference cells to call sites (table + field [+ parity of the "
@@ -382,6 +389,73 @@ def gen_multi(rng, t=None, c=None):
             "raw": [rng.randint(0, 10 ** 6) for _ in range(400)]}
 
 
+def gen_scope(rng):
+    """the LIFETIME of a uniqueness scope: `unique: true` + `parent:` where the parent row outlives the iteration
+    that made it (a just_once row found again by table name or by nickname in every later iteration, also next to a
+    repeating template of the same table that shadows it for the rest of the iteration; a row restored from a
+    continuation file), next to parents made anew in every iteration; targets whose eligible rows overlap between
+    iterations (just_once targets, just_once + repeating, the prior-and-current-iterations scope, rows added
+    between the pickers) and targets that do not; 2-5 iterations, also split into chains of continuation runs;
+    enough pickers to exhaust the targets in some iteration after the first"""
+    import json as _json
+    import yaml
+    playout = rng.choice(["once", "once", "once_nick", "once_nick", "once_then_iter", "once_then_iter", "iter_nick", "iter"])
+    tlayout = rng.choice(["once", "once", "once", "once_plus", "plain", "plain", "two", "nick_once"])
+    t = rng.randint(1, 6)
+    stmts = []
+    if tlayout == "once":
+        stmts.append(tpl("A", t, once=True, nick="aa")); tos = ["A", "aa"]
+    elif tlayout == "nick_once":          # only the nicknamed rows persist; the table has repeating rows too
+        stmts += [tpl("A", t, once=True, nick="aa"), tpl("A", rng.randint(0, 2))]; tos = ["aa"]
+    elif tlayout == "once_plus":
+        n2 = rng.choice([None, "aa"])
+        stmts += [tpl("A", rng.randint(1, 3), once=True, nick=rng.choice([None, "a2"])), tpl("A", rng.randint(1, 3), nick=n2)]
+        tos = ["A"] + ([n2] if n2 else [])
+    elif tlayout == "two":
+        stmts += [tpl("A", rng.randint(1, 3)), tpl("A", rng.randint(0, 2), nick="a2")]; tos = ["A", "A", "a2"]
+    else:
+        stmts.append(tpl("A", rng.randint(1, 3))); tos = ["A"]
+    overlap_by_scope = tlayout in ("plain", "two", "once_plus")
+    pnames = ["Q"]
+    if playout in ("once", "once_nick", "once_then_iter"):
+        q = {"object": "Q", "just_once": True, "count": rng.choice([1, 1, 2])}
+        if playout != "once" or rng.random() < 0.3:
+            q["nickname"] = "qq"
+    else:
+        q = {"object": "Q", "count": rng.choice([1, 1, 2])}
+        if playout == "iter_nick":
+            q["nickname"] = "qq"
+    if "nickname" in q:
+        pnames.append("qq")
+    stmts.append(q)
+    npick = rng.randint(1, 3)
+    shadow_at = rng.randint(1, npick) if playout == "once_then_iter" else None
+    sites = []
+    for k in range(1, npick + 1):
+        table = f"P{k}"
+        fields = {"par": {"reference": "Q"}}
+        if "qq" in pnames:
+            fields["parn"] = {"reference": "qq"}
+        for j in range(1, rng.choice([1, 1, 2]) + 1):
+            par = rng.choice(pnames) if rng.random() < 0.85 else None
+            glob = rng.random() < (0.6 if overlap_by_scope else 0.1)
+            fields[f"r{j}"] = _sitedef(rng.choice(tos), rng.random() < 0.9, par, glob)
+            sd = _site_of_def(fields[f"r{j}"])
+            sd.update({"table": table, "field": f"r{j}", "site": len(sites) + 1, "place": "top", "when": None, "via": "own"})
+            sites.append(sd)
+        stmts.append({"object": table, "count": rng.randint(1, 3), "fields": fields})
+        if shadow_at == k:                  # from here on `Q` names a row of this iteration; `qq` still the old one
+            stmts.append({"object": "Q", "count": 1})
+        if tlayout in ("plain", "two") and rng.random() < 0.3:
+            stmts.append(tpl("A", 1))       # the window grows between the pickers
+    stmts.append(tpl(MARK))
+    ks = rng.choice([[2], [2], [3], [3], [4], [5], [1, 2], [2, 2], [1, 3], [1, 1, 2], [2, 1]])
+    text = yaml.safe_dump(stmts, sort_keys=False, width=10 ** 6)
+    return {"kind": "multi", "stream": "scope", "playout": playout, "tlayout": tlayout, "t": t, "text": text,
+            "stmts": _json.loads(_json.dumps(stmts)), "sites": sites, "flow": False, "reps": sum(ks), "ks": ks,
+            "bias": rng.choice(["lo", "hi", "mix", "mix"]), "raw": [rng.randint(0, 10 ** 6) for _ in range(400)]}
+
+
 def generate(rng, tier):
     cases = []
     for _ in range(350 if tier == "quick" else 9000):
@@ -405,6 +479,8 @@ def generate(rng, tier):
                     cases.append(gen_multi(rng, t, c))
     for _ in range(450 if tier == "quick" else 4000):
         cases.append(gen_multi(rng))
+    for _ in range(300 if tier == "quick" else 4000):
+        cases.append(gen_scope(rng))
     return cases
 
 
@@ -594,15 +670,23 @@ def run_multi(case):
         if bias == "hi":
             return n - 1 if r % 3 else r % n
         return (0, n - 1, r % n)[r % 3]
-    app = SnowfakeryApplication(StoppingCriteria("__REPS__", case["reps"]))
-    app.echo = lambda *a, **kw: None
+    ks = case.get("ks") or [case["reps"]]
+    cont = None
     with injected_randbelow(chooser=chooser) as rec:
-        try:
-            generate(io.StringIO(case["text"]), {}, cap, app)
-        except BaseException as e:
-            if type(e).__name__ == "_CaseTimeout":
-                raise
-            return {"err": C.canon_exc(e), "msg": str(e)[:200], "rows": cap.rows, "draws": list(rec.values)}
+        for i, k in enumerate(ks):
+            app = SnowfakeryApplication(StoppingCriteria("__REPS__", k))
+            app.echo = lambda *a, **kw: None
+            out_cont = io.StringIO() if i < len(ks) - 1 else None
+            try:
+                generate(io.StringIO(case["text"]), {}, cap, app, generate_continuation_file=out_cont,
+                         continuation_file=io.StringIO(cont) if cont else None)
+            except BaseException as e:
+                if type(e).__name__ == "_CaseTimeout":
+                    raise
+                return {"err": C.canon_exc(e), "msg": str(e)[:200], "rows": cap.rows, "draws": list(rec.values)}
+            cont = out_cont.getvalue() if out_cont else None
+            if cont is not None:
+                cap.rows.append(["@run-boundary", []])     # not a row: the next run starts here
     return {"ok": cap.rows, "draws": list(rec.values)}
 
 
@@ -688,33 +772,55 @@ MULTI_NAMES = sorted({**NICKS, **{t: t for t in TABLES}}.items())
 
 
 def expand(case):
-    """the rows a `multi` recipe writes, in order, all iterations: (table, id, id of the Q row that `parent: Q` /
-    `reference: Q` name while the row is built).  The control flow of these recipes does not depend on data."""
+    """the rows a `multi` recipe writes, in order, all iterations and runs: (table, id, env) where env maps the names
+    a `parent:` / `reference:` can use (Q, its nickname) to the id of the Q row they name while the row is built:
+    the last such row of this iteration, else the last one made by a just_once template (those outlive iterations
+    and runs).  The control flow of these recipes does not depend on data."""
+    return _expand(case)[0]
+
+
+def _expand(case):
+    """expand + the rows a continued run saves again before its first iteration: rows of just_once templates still
+    known by nickname, then those known by table name (tables with a history only)"""
     out = []
     ids = Counter()
-    lastq = [0]
+    cur, pers = {}, {}
+    by_nick, by_table = {}, {}
 
-    def go(tp):
+    def go(tp, once):
         for _ in range(tp.get("count", 1)):
             table = tp["object"]
             ids[table] += 1
             myid = ids[table]
             if table == "Q":
-                lastq[0] = myid
-            q_now = lastq[0]
+                for nm in (table, tp.get("nickname")):
+                    if nm:
+                        cur[nm] = myid
+                        if once:
+                            pers[nm] = myid
+            if once and table in TABLES:
+                if tp.get("nickname"):
+                    by_nick[tp["nickname"]] = (table, myid, tp["nickname"])
+                by_table[table] = (table, myid, None)
+            env = dict(cur)
             for v in (tp.get("fields") or {}).values():
                 if isinstance(v, list):
                     for ch in v:
-                        go(ch)
-            out.append((table, myid, q_now))
+                        go(ch, False)
+            out.append((table, myid, env))
             for fr in tp.get("friends", []):
-                go(fr)
+                go(fr, False)
     for it in range(case["reps"]):
+        cur.clear()
+        cur.update(pers)
         for st in case["stmts"]:
             if "macro" in st or (st.get("just_once") and it > 0):
                 continue
-            go(st)
-    return out
+            go(st, bool(st.get("just_once")))
+    again = list(by_nick.values())
+    have = {(t, i) for t, i, _ in again}
+    again += [r for r in by_table.values() if (r[0], r[1]) not in have]
+    return out, [list(r) for r in again]
 
 
 def derive_trace(case, obs):
@@ -733,17 +839,23 @@ def derive_trace(case, obs):
         for sd in case["sites"]:
             if sd["table"] == t and sd["field"] == k and sd.get("when") in (None, "even" if rowid % 2 == 0 else "odd"):
                 return sd
-    skel = expand(case)
+    skel, again = _expand(case)
 
-    def site_op(sd, q):
+    def site_op(sd, env):
         if sd["unique"]:
-            return ["uref", sd["site"], q if sd["parent"] == "Q" else 0, sd["to"], sd["glob"]]
+            return ["uref", sd["site"], env.get(sd["parent"], 0) if sd["parent"] else 0, sd["to"], sd["glob"]]
         return ["ref", sd["to"], sd["glob"]]
     ops, res = [], []
-    for pos, (t, fs) in enumerate(rows):
+    pos = 0
+    for t, fs in rows:
+        if t == "@run-boundary":            # the next run starts here: it saves the surviving just_once rows again
+            ops.append(["newrun", again])
+            res.append(["none"])
+            continue
         d = dict((k, v) for k, v in fs)
         if pos >= len(skel) or skel[pos][0] != t or d.get("id") != ["int", skel[pos][1]]:
             return None
+        env = skel[pos][2]
         if t == MARK:
             ops.append(["reset"])
             res.append(["none"])
@@ -754,23 +866,35 @@ def derive_trace(case, obs):
             seen = [k for k, _ in fs if k in order[t]]
             if seen != order[t]:
                 return None
-            if "par" in d and d["par"] != ["ref", "Q", skel[pos][2]]:
-                return None
+            # the parent row is read off the row's own `reference:` cells (one per name a `parent:` uses)
+            for cell, nm in (("par", "Q"), ("parn", "qq")):
+                if cell in d and d[cell] != ["ref", "Q", env.get(nm, 0)]:
+                    return None
             for k in seen:
                 v = d[k]
                 if v[0] != "ref":
                     return None
-                ops.append(site_op(site_at(t, k, skel[pos][1]), skel[pos][2]))
+                ops.append(site_op(site_at(t, k, skel[pos][1]), env))
                 res.append(["ref", v[1], v[2]])
+        pos += 1
     tail = []
     fails = "err" in obs
     if fails:
-        if len(rows) >= len(skel) or skel[len(rows)][0] not in order:
+        if pos >= len(skel) or skel[pos][0] not in order:
             tail = None         # the run did not fail while a picker row was being built
         else:
-            t, rid, q = skel[len(rows)]
-            tail = [site_op(site_at(t, k, rid), q) for k in order[t]]
+            t, rid, env = skel[pos]
+            tail = [site_op(site_at(t, k, rid), env) for k in order[t]]
     return {"ops": ops, "res": res, "tail": tail, "fails": fails}
+
+
+def first_run(tr):
+    """the part of a trace that the call-site machine covers: the first run (a continued run starts from a
+    row history rebuilt from the continuation file, which is the interpreter model's business)"""
+    for i, op in enumerate(tr["ops"]):
+        if op[0] == "newrun":
+            return {"ops": tr["ops"][:i], "res": tr["res"][:i], "tail": [], "fails": False}
+    return tr
 
 
 def coq_case(case, obs):
@@ -780,7 +904,10 @@ def coq_case(case, obs):
         return _mcase_coq(case["counters"], case["names"], obs["draws"], case["ops"][:len(obs["obs"])], obs["obs"], [], False)
     if case["kind"] == "multi":
         tr = derive_trace(case, obs)
-        if tr is None or "draws" not in obs or tr["tail"] is None or obs.get("err", "DGE") != "DGE":
+        if tr is None or "draws" not in obs or obs.get("err", "DGE") != "DGE":
+            return None
+        tr = first_run(tr)
+        if tr["tail"] is None:
             return None
         return _mcase_coq([], MULTI_NAMES, obs["draws"], tr["ops"], tr["res"], tr["tail"], tr["fails"])
     if case["kind"] == "recipe":
@@ -927,8 +1054,10 @@ def oracle_trace(label, counters, ops, res, tail, fails):
     current iteration when it has one, unless the scope is global); a unique call site never returns a row twice
     under one parent row, and it fails only when it has used every eligible row itself"""
     saved, local = [], []
-    used = {}                # site -> [parent token, rows returned under it]
+    used = {}                # site -> [parent token, rows returned under it]: lives as long as the parent row is
+    #                          the same row (iteration ends do not touch it), within one run
     restored = dict(counters)
+    top = dict(counters)     # per table: the id of the row saved last (the restored counter before any save)
 
     def eligible(name, glob):
         nick = name if name in NICKS else None
@@ -937,7 +1066,7 @@ def oracle_trace(label, counters, ops, res, tail, fails):
         loc = [(t, i) for (t, i, n) in local if t == table and (nick is None or n == nick)]
         if loc and not glob:
             return loc
-        old = [(table, i) for i in range(1, restored.get(table, 0) + 1)] if nick is None else []
+        old = [(table, i) for i in range(1, top.get(table, 0) + 1)] if nick is None else []
         return old + [x for x in rows if x not in old]
 
     def scope_used(op):
@@ -968,9 +1097,21 @@ def oracle_trace(label, counters, ops, res, tail, fails):
         if op[0] == "save":
             saved.append((op[1], op[3], op[2]))
             local.append((op[1], op[3], op[2]))
+            top[op[1]] = op[3]
             continue
         if op[0] == "reset":
             local = []
+            continue
+        if op[0] == "newrun":
+            # a continued run: the state of every call site starts afresh (it is not stored in the continuation
+            # file), the row history holds the ids restored per table plus the just_once rows saved again
+            used.clear()
+            restored.clear()
+            restored.update(top)
+            saved, local = [], []
+            for t, i, n in op[1]:
+                saved.append((t, i, n))
+                top[t] = i
             continue
         name, glob = (op[1], op[2]) if op[0] == "ref" else (op[3], op[4])
         what = f"{'unique ' if op[0] == 'uref' else ''}random_reference to {name}" + \
@@ -1074,6 +1215,36 @@ def stats(cases, obss):
         "outcomes": dict(Counter(("ok" if "ok" in o else "err:" + str(o.get("err"))) for _, o in multi)),
         "traces_attributed": sum(1 for c, o in multi if ("ok" in o or "err" in o) and derive_trace(c, o) is not None),
     }
+    sc = [(c, o) for c, o in multi if c.get("stream") == "scope"]
+
+    def spans(c, o):
+        """(scopes = call site + parent row; how many were asked in more than one iteration; how many of those were
+        refused in an iteration after their first)"""
+        tr = derive_trace(c, o) if ("ok" in o or "err" in o) else None
+        if tr is None:
+            return None
+        it, run, seen = 0, 0, {}
+        for op in tr["ops"] + (tr["tail"] or []):
+            if op[0] == "reset":
+                it += 1
+            elif op[0] == "newrun":
+                run += 1
+            elif op[0] == "uref" and op[2]:
+                seen.setdefault((run, op[1], op[2]), set()).add(it)
+        return len(seen), sum(1 for v in seen.values() if len(v) > 1)
+    sp = [x for x in (spans(c, o) for c, o in sc) if x]
+    st["scope_lifetime"] = {
+        "cases": len(sc), "parent_layouts": dict(Counter(c["playout"] for c, _ in sc)),
+        "target_layouts": dict(Counter(c["tlayout"] for c, _ in sc)),
+        "histories": dict(Counter("+".join(map(str, c["ks"])) for c, _ in sc)),
+        "site_options": dict(Counter(("unique" if sd["unique"] else "plain") + ("+parent:" + sd["parent"] if sd["parent"] else "")
+                                     + ("+global" if sd["glob"] else "") for c, _ in sc for sd in c["sites"])),
+        "outcomes": dict(Counter(("ok" if "ok" in o else "err:" + str(o.get("err"))) for _, o in sc)),
+        "scopes_asked": sum(a for a, _ in sp), "scopes_asked_in_several_iterations": sum(b for _, b in sp),
+        "cases_with_a_scope_spanning_iterations": sum(1 for _, b in sp if b),
+        "failed_in_a_later_iteration_or_run": sum(1 for c, o in sc if "err" in o and
+                                                   sum(1 for r in o.get("rows", []) if r[0] in (MARK, "@run-boundary")) > 0),
+    }
     st["site_scripts"] = {
         "sites": dict(Counter(c["nsites"] for c, _ in ms)),
         "several_sites_on_one_target": sum(1 for c, _ in ms if c["same_target"]),
@@ -1112,7 +1283,8 @@ def shrink(case):
 
 def directed_search(rng, disagreeing):
     return ([gen_script(rng) for _ in range(1500)] + [gen_recipe(rng) for _ in range(600)] +
-            [gen_mscript(rng) for _ in range(1000)] + [gen_multi(rng) for _ in range(1000)])
+            [gen_mscript(rng) for _ in range(1000)] + [gen_multi(rng) for _ in range(1000)] +
+            [gen_scope(rng) for _ in range(1000)])
 
 
 def match_finding(case, obs, msg, findings):
